@@ -1103,18 +1103,26 @@ func (dns *Msg) CopyTo(r1 *Msg) *Msg {
 	r1.Extra = rrArr[:0:len(dns.Extra)]
 
 	for _, r := range dns.Answer {
-		r1.Answer = append(r1.Answer, r.copy())
+		r1.Answer = append(r1.Answer, copyOrNil(r))
 	}
 
 	for _, r := range dns.Ns {
-		r1.Ns = append(r1.Ns, r.copy())
+		r1.Ns = append(r1.Ns, copyOrNil(r))
 	}
 
 	for _, r := range dns.Extra {
-		r1.Extra = append(r1.Extra, r.copy())
+		r1.Extra = append(r1.Extra, copyOrNil(r))
 	}
 
 	return r1
+}
+
+// copyOrNil copies r; a nil entry in a section, which Len and String skip, stays nil.
+func copyOrNil(r RR) RR {
+	if r == nil {
+		return nil
+	}
+	return r.copy()
 }
 
 func (q *Question) pack(msg []byte, off int, compression compressionMap, compress bool) (int, error) {
